@@ -25,6 +25,16 @@ def judge(rec, kind, init, m, fault):
         seen = rec.get("user_state_at_landing", "<unset>")
         if seen != "<unset>" and not (seen == init and type(seen) is type(init)):
             return "c16.parent-sees-child-state-while-alive", True
+    if fault == 3 and rec.get("obs_early") is not None and not rec.get("obs_early_err"):
+        # the parent looked while the forwarding thread was still busy: if the worker is reported dead with a
+        # reported outcome, the state must already be the child's last one
+        ea, ehe, eres, eerr = rec["obs_early"]
+        if (ea is False or rec.get("early_wait") is True) and (ehe is False or (ehe is True and eerr is not None)):
+            assigned = [v for (what, v) in rec.get("state_log_early", []) if what == "assigned"]
+            want = assigned[-1] if assigned else init
+            got = rec.get("user_state_early")
+            if not (got == want and type(got) is type(want)):
+                return "c16.worker-reported-dead-before-its-state-arrived", True
     if not rec.get("dead") or rec.get("obs1") is None:
         return None, False
     alive, he, res, err = rec["obs1"]
@@ -44,7 +54,9 @@ def judge(rec, kind, init, m, fault):
 def make_h(kind):
     def h(init, end, m, fault, k):
         with notrace():
-            init_, end_, m_, fault_ = conc(init, len(INIT)), conc(end, len(ENDS)), conc(m, 4), conc(fault, 2)
+            init_, end_, m_, fault_ = conc(init, len(INIT)), conc(end, len(ENDS)), conc(m, 4), conc(fault, 3)
+            if fault_ == 2:
+                fault_ = 3          # 0 none / 1 graceful terminate at child point k / 3 slow forwarding thread at its point k
             k_ = conc(k, KMAX[kind] + 12) if fault_ else 0
             ev("c16", wsim.KIND_NAMES[kind], init_, end_, m_, fault_, k_)
             rec = wscen.scenario(kind, ENDS[end_][0], ENDS[end_][1], fault_, k_, init_state=INIT[init_], stateful=True, m=m_)
@@ -96,9 +108,10 @@ def h_restart(kind, init, m, chain):
 
 def _harness(kind):
     name = wsim.KIND_NAMES[kind]
-    params = OrderedDict([("init", (0, len(INIT) - 1)), ("end", (0, len(ENDS) - 1)), ("m", (0, 3)), ("fault", (0, 1)), ("k", (0, KMAX[kind] + 11))])
-    quick = {"ranges": {"init": (0, 2), "m": (0, 2)}, "partition": ["fault", "m"], "timeout": 300, "twin_fixed": {"fault": 0, "m": 2}}
-    thorough = {"partition": ["fault", "m", "init"], "timeout": 900, "twin_fixed": {"fault": 0, "m": 2, "init": 1}}
+    fmax = 2 if wsim.is_remote_kind(kind) else 1
+    params = OrderedDict([("init", (0, len(INIT) - 1)), ("end", (0, len(ENDS) - 1)), ("m", (0, 3)), ("fault", (0, fmax)), ("k", (0, KMAX[kind] + 11))])
+    quick = {"ranges": {"init": (0, 2), "m": (0, 2)}, "partition": ["fault", "m", "end"], "timeout": 300, "twin_fixed": {"fault": 0, "m": 2, "end": 0}}
+    thorough = {"partition": ["fault", "m", "init", "end"], "timeout": 900, "twin_fixed": {"fault": 0, "m": 2, "init": 1, "end": 0}}
     return Harness(name, "vf.props.c16:h_%s" % name, params, tiers={"quick": quick, "thorough": thorough},
                    functions=_FUNCS + ["pyworkers.worker:Worker.user_state", "pyworkers.persistent:PersistentWorker.restart",
                                        "pyworkers.worker:Worker._get_restart_args", "pyworkers.remote:RemoteWorker._get_restart_args"])
@@ -118,6 +131,8 @@ SPEC = PropSpec(
         "simulation model of C01; the worker classes are subclasses whose run() assigns user_state m times (vf/targets.py)",
         "'ended in a way that lets it report' is read off the outcome: has_error False, or has_error True with an error object",
         "restart chains: each incarnation processes one item, its first action is to record the user_state it starts from",
+        "remote kinds, fault 3: the parent-side forwarding thread sleeps 3 model seconds at its k-th statement (e.g. between receiving the result and the "
+        "state); if the parent then sees the worker dead with a reported outcome, user_state must already be synchronised",
     ],
     outside=["the window between the frontend thread storing the state and that thread exiting", "SIGKILL endings (nothing can be reported)"],
     stubs=["vf/simos.py"],
